@@ -14,12 +14,12 @@
 (***************************************************************************)
 EXTENDS StakingCpc
 
-CONSTANTS MaxOps, MaxTime, MaxAccrue, Amounts, Witness
+CONSTANTS MaxOps, MaxTime, MaxAccrue, Amounts, Witness, BothRoutes
 
 McD == {"d1", "d2", "c1"}
 McV == {"v1", "v2"}
 Signers == {"d1", "d2", "k3"}     \* keys: the two EOAs and a third key; the contract c1 has none
-CF == [D |-> McD, V |-> McV, Vseq |-> <<"v1", "v2">>, valOrder |-> <<"v2", "v1">>, ut |-> 2, maxEntries |-> 2, minW |-> 2]
+CF == [D |-> McD, V |-> McV, Vseq |-> <<"v1", "v2">>, iter |-> <<"v2", "v1">>, valOrder |-> <<"v2", "v1">>, ut |-> 2, maxEntries |-> 2, minW |-> 2]
 
 VARIABLES st, now, nops, nacc, last, logs
 vars == <<st, now, nops, nacc, last, logs>>
@@ -45,7 +45,7 @@ PlainOps(c) ==
   \cup {[NoOp EXCEPT !.m = "redelegate", !.src = s, !.v = v, !.amt = a] : s \in McV, v \in McV, a \in Amounts}
   \cup {[NoOp EXCEPT !.m = "withdrawReward", !.v = v] : v \in McV}
   \cup {[NoOp EXCEPT !.m = "withdrawRewards"]}
-  \cup {[NoOp EXCEPT !.m = "transfer", !.to = t, !.amt = a] : t \in McD, a \in Amounts}
+  \cup {[NoOp EXCEPT !.m = "transfer", !.to = t, !.amt = a] : t \in {c, "d2"}, a \in Amounts}     \* to = caller, to # caller
 
 Payloads ==
   {[NoOp EXCEPT !.m = "delegateByMsg", !.act = "Delegate", !.v = "v1", !.amt = 1],
@@ -68,6 +68,9 @@ MethodIdx(op) ==
   CASE op.m = "delegate" -> 1 [] op.m = "undelegate" -> 2 [] op.m = "redelegate" -> 3 [] op.m = "withdrawReward" -> 4
     [] op.m = "withdrawRewards" -> 5 [] op.m = "transfer" -> 6 [] op.m = "delegateByMsg" -> 7 [] op.m = "withdrawByMsg" -> 8
 
+(* A step is a call by immediate caller c on route "cpc" (Effect) or the submission of the corresponding native
+   messages on route "native" (ApplyMsgs of the expansion).  Both are explored when BothRoutes; otherwise only the
+   precompile route is explored and RouteIndependent still computes the native result for every step. *)
 Step(route, c, op) ==
   /\ nops < MaxOps
   /\ LET e == IF route = "cpc" THEN Effect(CF, st, now, c, op)
@@ -98,10 +101,12 @@ Tick ==
   /\ last' = [kind |-> "tick"] /\ logs' = <<>>
   /\ UNCHANGED <<nops, nacc>>
 
+Routes == IF BothRoutes THEN {"cpc", "native"} ELSE {"cpc"}
+
 Next ==
-  \/ \E route \in {"cpc", "native"}, c \in McD : \E op \in PlainOps(c) : Step(route, c, op)
-  \/ \E route \in {"cpc", "native"}, c \in {"d1", "d2"} : \E op \in ValidOps(c) : Step(route, c, op)
-  \/ \E c \in McD : \E op \in ForgedOps(c) : Step("cpc", c, op)
+  \/ \E route \in Routes, c \in McD : \E op \in PlainOps(c) : Step(route, c, op)
+  \/ \E route \in Routes, c \in {"d1", "d2"} : \E op \in ValidOps(c) : Step(route, c, op)
+  \/ (now = 0 /\ \E c \in McD : \E op \in ForgedOps(c) : Step("cpc", c, op))     \* authorisation does not depend on time
   \/ Accrue
   \/ Tick
 
